@@ -8,11 +8,14 @@ LEVEL = "other"
 
 RACE_HARNESS = os.path.join(BUILD, "harness_race")
 
+CLASS_PATTERNS = [r"x\s", r"\S", r"\d+", r"\D", r"\w", r"\W", r"[\s,]", r"[^\s]", r"[\d\w]", r"[^\w]", "[[:space:]]", "[^[:blank:]]", "[[:alpha:][:digit:]]",
+                  "[^[:xdigit:]]", "[[:word:]]x", r"\S\s", r"a\.b\|", "[^a-c]", "."]
+
 
 def build_race(ctx):
     env = dict(GOENV, CGO_ENABLED="1")
     with Lock():
-        rc, out = sh(["go", "build", "-race", "-tags", "verif", "-overlay", os.path.join(BUILD, "overlay.json"), "-o", RACE_HARNESS, "./internal/zzverif/harness"],
+        rc, out = sh(["go", "build", "-race", "-tags", "verif", "-overlay", os.path.join(BUILD, "overlay.json" if REPO == "/repo" else "overlay-alt.json"), "-o", RACE_HARNESS, "./internal/zzverif/harness"],
                      cwd=REPO, env=env, timeout=1200)
     if rc != 0:
         raise Broken("go build -race of the verification harness failed", out[-3000:])
@@ -60,6 +63,9 @@ def run(ctx):
             items.append("S" + hx(text))
     for _ in range(10 if quick else 40):
         items.append("P" + hx(gen_pattern(rng, max_wide=2).encode()))
+    # every shared table of the pattern parsers is read by some item: each class, plain and negated, alone and in brackets
+    directed = ["P" + hx(p.encode()) for p in CLASS_PATTERNS]
+    items += directed
     # isolated baselines: every item alone in a fresh process
     base = {}
     for it in items:
@@ -68,6 +74,7 @@ def run(ctx):
     distinct = set(items)
     # sequential processing in one process: all orders of groups of 4 items
     groups = [rng.sample(items, 4) for _ in range(6 if quick else 40)]
+    groups += [rng.sample(directed, 4) for _ in range(6 if quick else 40)]
     lines, orders = [], []
     for g in groups:
         for perm in itertools.permutations(g):
@@ -77,6 +84,10 @@ def run(ctx):
         stats["sequential_orders"] += 1
         got = r.split(",")
         for it, g in zip(perm, got):
+            if decode_hex_fields(g).startswith("SHARED-STATE-CHANGED"):
+                ctx.add_violation("processing an input modified package-level state of emerge that every later (or concurrent) parse reads",
+                                  {"order": list(perm), "item": it, "item_text": decode_hex_fields(it[1:]), "shared_state": decode_hex_fields(g)[:700]})
+                break
             if g != base[it]:
                 ctx.add_violation("the result for an input depends on what was processed before it in the same process",
                                   {"order": list(perm), "item": it, "isolated": decode_hex_fields(base[it])[:700], "in_sequence": decode_hex_fields(g)[:700]})
@@ -85,7 +96,7 @@ def run(ctx):
     try:
         build_race(ctx)
         rounds = 12 if quick else 60
-        for g in [rng.sample(items, 8) for _ in range(4 if quick else 25)]:
+        for g in [rng.sample(items, 8) for _ in range(4 if quick else 25)] + [rng.sample(directed, 8) for _ in range(3 if quick else 20)]:
             p = subprocess.run([RACE_HARNESS, "conc"], input=("%d %s\n" % (rounds, ",".join(g))).encode(), stdout=subprocess.PIPE, stderr=subprocess.PIPE, timeout=900,
                                env=dict(os.environ, GORACE="halt_on_error=0 history_size=2"))
             stats["concurrent_rounds"] += rounds
@@ -105,6 +116,10 @@ def run(ctx):
                 continue
             for it, o in zip(g, out):
                 n, _, first = o.partition(":")
+                if decode_hex_fields(first).startswith("SHARED-STATE-CHANGED"):
+                    ctx.add_violation("concurrent processing modified package-level state of emerge that every parse reads",
+                                      {"items": g, "shared_state": decode_hex_fields(first)[:700]})
+                    continue
                 if n != "1" or first != base[it]:
                     if dep and "F21" in {f["id"] for f in known_for("C17")}:
                         stats["result_changes_with_dependency_races"] += 1       # explained: the dependency's shared hashers were raced on in this very run
@@ -117,7 +132,7 @@ def run(ctx):
         if f["id"] == "F21" and stats["race_reports_dependency_state"] > 0:
             ctx.known_hits.append(f)
     cov = {"evaluations": stats["sequential_orders"] + stats["concurrent_rounds"], "distinct_nontrivial": len(distinct),
-           "rule": "specifications (definition sets, defect-seeded specifications) and patterns; each alone in a fresh process (baseline); all 24 orders of groups of 4 in one process; 8 different items on 8 goroutines started together, repeated, in a harness built with -race; a race report is attributed to the owner of the state by the first non-runtime, non-standard-library frame; non-trivial = distinct item",
+           "rule": "specifications (definition sets, defect-seeded specifications), generated patterns and a fixed list of patterns that together read every class table (plain, negated, in brackets); after every item the harness prints emerge's package-level tables (Predefs, the EBNF grammar tables, terminalNames, RuneClasses members as stored, escapedChars) and compares them with their initial print; the result of a pattern includes the syntax tree as built; each alone in a fresh process (baseline); all 24 orders of groups of 4 in one process; 8 different items on 8 goroutines started together, repeated, in a harness built with -race; a race report is attributed to the owner of the state by the first non-runtime, non-standard-library frame; non-trivial = distinct item",
            "samples": [decode_hex_fields(items[0][1:])[:150], decode_hex_fields(items[-1][1:])[:80]], "outcomes": stats,
            "explanation": "partial: the frame theorem (disjoint private state + read-only shared data => every interleaving and every order give the isolated result) and the re-extracted, classified list of emerge's package-level variables carry the logic; data-race freedom itself rests on the race detector over the schedules that occur; the dependency's package-level hashers and shuffle generator are outside /repo (finding F21)",
            "trusted_base": TRUSTED_BASE + ["Go race detector", "translator fact `globals` (syntactic list of package-level variables)"]}
